@@ -47,7 +47,12 @@ for l in open('/verif/properties.jsonl'):
         for m_ in _re.finditer(r"^@@[^@]*@@.*?(?:def|class) (\w+)", open(d).read(), _re.M):
             done.add(m_.group(1))
     extra = ""
-    if ROUND > 1 and done:
+    TARGETS = json.loads(os.environ.get("BENIGN_TARGETS", "{}"))
+    if pid in TARGETS:
+        extra = ("\n\nThis time refactor specifically these functions (one refactor may cover one or two of them; reshape them as a maintainer would: "
+                 "extract / inline helpers, early exits, loops <-> comprehensions, rename and split locals, reorder independent statements, merge or split "
+                 "conditions -- but keep the behaviour exactly): " + TARGETS[pid])
+    elif ROUND > 1 and done:
         extra = ("\n\nA colleague has already cleaned up these functions / classes; pick OTHER functions relevant to the property, and prefer "
                  "kinds of refactoring that reshape the code more deeply than a rename (change the loop structure, split a function in two, "
                  "merge two passes into one, replace a flag variable by control flow, table-driven dispatch instead of if/elif chains or the "
